@@ -190,7 +190,7 @@ def _immutable_value(t):
     return ty in _IMMUTABLE
 
 
-def _returns_mutable(fi):
+def _returns_mutable(fi, _depth=0):
     """syntactic evidence that a function returns a fresh mutable container / object: its annotation, a returned display
     or comprehension, or a returned local that was bound to one"""
     r = fi.node.returns
@@ -207,12 +207,23 @@ def _returns_mutable(fi):
             for t in n.targets:
                 if isinstance(t, ast.Name):
                     made.add(t.id)
+    # a local bound to the result of a module function that itself returns a fresh container
+    if _depth < 2:
+        for n in ast.walk(fi.node):
+            if isinstance(n, ast.Assign) and isinstance(n.value, ast.Call) and isinstance(n.value.func, ast.Name):
+                h = fi.module.functions.get(n.value.func.id)
+                if h is not None and h is not fi and _returns_mutable(h, _depth + 1):
+                    for t in n.targets:
+                        if isinstance(t, ast.Name):
+                            made.add(t.id)
     for n in ast.walk(fi.node):
         if isinstance(n, ast.Return) and n.value is not None:
-            if isinstance(n.value, (ast.List, ast.Dict, ast.Set, ast.ListComp, ast.DictComp, ast.SetComp)):
-                return True
-            if isinstance(n.value, ast.Name) and n.value.id in made:
-                return True
+            vals = list(n.value.elts) if isinstance(n.value, ast.Tuple) else [n.value]
+            for v_ in vals:
+                if isinstance(v_, (ast.List, ast.Dict, ast.Set, ast.ListComp, ast.DictComp, ast.SetComp)):
+                    return True
+                if isinstance(v_, ast.Name) and v_.id in made:
+                    return True
     return False
 
 
@@ -241,12 +252,35 @@ def _transparent_memo(p, fi, d):
             args.append(T.clsref(fi.cls.qual))
         else:
             args.append(S('memo_' + q, type=ty) if ty else S('memo_' + q))
-    try:
-        v, _ = Evaluator(p, 'ecdsa').call_function(fi.qual[len(PKG) + 1:], args)
-    except Exception:
+    leaves_, vs = [], []
+    for be in ('secp', 'ecdsa'):
+        try:
+            v, _ = Evaluator(p, be).call_function(fi.qual[len(PKG) + 1:], args)
+        except Exception as e:
+            if type(e).__name__ == 'NameErrorSignal':
+                continue        # a function of the other back end's arm: it raises NameError here (nothing is stored)
+            return None
+        vs.append(v)
+        leaves_ += [x for x in distinct_leaves(v) if x not in leaves_]
+    if not vs:
         return None
-    leaves_ = distinct_leaves(v)
-    if any(T.tag(x) in ('list', 'dict', 'obj') for x in leaves_):
+    v = T.tup(vs)
+    # not a function of its arguments: a random draw, an environment condition, the clock - a stored result then REPLACES
+    # what a fresh call would have produced (every "new" mnemonic the same one)
+    impure = sorted({x[1] for x in T.walk(v) if T.is_op(x) and x[1] in ('RANDBITS', 'RANDBYTES', 'RANDVAL', 'CSPRNG', 'PRNG', 'EXTCALL')}
+                    | {str(x[1])[:40] for x in T.walk(v) if T.tag(x) == 'sym' and str(x[1]).startswith('ENV:')})
+    if impure:
+        return False
+
+    def has_mutable(x):
+        if T.tag(x) in ('list', 'dict', 'obj'):
+            return True
+        if T.type_of(x) == 'point':
+            return True     # a native library object: ec_pubkey_tweak_add modifies its argument in place (C13.INPLACE)
+        if T.tag(x) == 'tuple':
+            return any(has_mutable(y) for y in x[1])
+        return False
+    if any(has_mutable(x) for x in leaves_):
         return False
     if not all(_immutable_value(x) for x in leaves_):
         # the evaluator cannot see the value: the source still says what kind of thing is returned
